@@ -541,8 +541,10 @@ def main():
         first = what.strip().splitlines()[0] if what.strip() else ""
         sig = re.sub(r"[0-9]+", "N", first)[:80]
         sigs[sig] = sigs.get(sig, 0) + 1
-        if sigs[sig] > 2:
-            continue   # same symptom already reported twice; the case files stay under found/
+        tag = first.split(":")[0][:40]
+        sigs[tag] = sigs.get(tag, 0) + 1
+        if sigs[sig] > 2 or sigs[tag] > 3 or len(seen) >= 8:
+            continue   # same symptom already reported; the case files stay under found/
         seen.add(path)
         print("VIOLATION property=%s replay=%s  # %s" % (pid, path, first[:300]))
 
